@@ -31,6 +31,8 @@ def shards(tier, seed):
         for D in BOUNDS[tier]["D"]:
             for R in BOUNDS[tier]["R"]:
                 out.append(dict(id="C06/%s/D%d/R%d" % (kind, D, R), kind=kind, D=D, R=R, cost=D ** 3, facts=dict(kind=kind, D=D, R=R)))
+        if tier == "quick":
+            out.append(dict(id="C06/%s/D5/R5.large" % kind, kind=kind, D=5, R=5, cost=150, facts=dict(kind=kind, D=5, R=5)))
     return out
 
 
